@@ -45,6 +45,12 @@ type vfTWCase struct {
 	Brand     string
 	DevName   string
 	DevID     int
+	// ClearAt: numbers of frames whose first five bytes spell the camera daemon's "clear" message (frames are
+	// opaque to thermal-writer: they must be stored like any other)
+	ClearAt []int `json:"clear_at,omitempty"`
+	// Stale: the output directory already holds longer files under the names of the coming seconds (a clock that
+	// was set back): what is written now must not keep any of their content
+	Stale bool `json:"stale,omitempty"`
 }
 
 func vfGenTW(t *rapid.T) vfTWCase {
@@ -99,6 +105,12 @@ func vfGenTW(t *rapid.T) vfTWCase {
 	c.Brand = rapid.SampledFrom([]string{"flir", "", "true"}).Draw(t, "brand")
 	c.DevName = rapid.SampledFrom([]string{"dev", "", "a b", "名"}).Draw(t, "devname")
 	c.DevID = rapid.SampledFrom([]int{0, 7, 123456}).Draw(t, "devid")
+	if c.Frames > 0 && rapid.IntRange(0, 3).Draw(t, "clearframes") == 0 {
+		for i := rapid.IntRange(1, 3).Draw(t, "nclear"); i > 0; i-- {
+			c.ClearAt = append(c.ClearAt, rapid.IntRange(0, c.Frames-1).Draw(t, "clearat"))
+		}
+	}
+	c.Stale = rapid.IntRange(0, 3).Draw(t, "stale") == 0
 	return c
 }
 
@@ -119,6 +131,11 @@ func vfTWFrame(c vfTWCase, i int, buf []byte) {
 	}
 	if len(buf) >= 4 {
 		binary.LittleEndian.PutUint32(buf, uint32(i))
+	}
+	for _, k := range c.ClearAt {
+		if k == i && len(buf) >= 5 {
+			copy(buf, "clear")
+		}
 	}
 }
 
@@ -233,6 +250,13 @@ func vfRunTW(c vfTWCase) *kit.Result {
 		panic(err)
 	}
 	defer os.RemoveAll(dir)
+	junk := bytes.Repeat([]byte{0xEE}, 300000)
+	if c.Stale {
+		now := time.Now()
+		for d := -1; d <= 12; d++ {
+			os.WriteFile(filepath.Join(dir, now.Add(time.Duration(d)*time.Second).Format("2006_01_02T15_04_05")+".cptr"), junk, 0644)
+		}
+	}
 	lb := &vfTWLog{}
 	log.SetOutput(lb)
 	defer log.SetOutput(io.Discard)
@@ -354,6 +378,17 @@ func vfRunTW(c vfTWCase) *kit.Result {
 	}
 	names, _ := filepath.Glob(filepath.Join(dir, "*.cptr"))
 	sort.Strings(names)
+	if c.Stale {
+		// the older files this connection did not write to are still what they were: set them aside
+		var mine []string
+		for _, n := range names {
+			if b, err := os.ReadFile(n); err == nil && bytes.Equal(b, junk) {
+				continue
+			}
+			mine = append(mine, n)
+		}
+		names = mine
+	}
 	if len(names) == 0 {
 		r.Failf("no CPTR file was written")
 		return r
